@@ -144,3 +144,79 @@ static void fifo_body() {
 }
 VMC_HARNESS(mtx_fifo_v2, "C15") { fifo_body<v2::async_mutex>(); }
 VMC_HARNESS(mtx_fifo_v1, "C15") { fifo_body<v1::async_mutex>(); }
+
+// ---- operation sequences on one thread: the waiter list with elements removed from the front / middle / tail ----------
+// Every sequence of up to arg0 operations over { W: start one more async_lock (at most 4), Ck: request stop on waiter k,
+// U: the current holder unlocks } starting from a held mutex, then the holder keeps unlocking until nobody waits.
+// Reference model: a FIFO list of waiting ids. A cancelled waiter completes with done at the stop request and never owns
+// the lock; an unlock hands the lock to the first waiter of the list; at the end every waiter that was not cancelled while
+// waiting has been granted the lock exactly once, in queueing order, and the mutex is free.
+template <class M>
+static void mutex_ops_body() {
+  int nops = vmcrt::arg(0, 5);
+  M m; Mon mon;
+  constexpr int MAXW = 4;
+  int cnt[MAXW] = {}; char how[MAXW] = {'?', '?', '?', '?'};
+  inplace_stop_source src[MAXW];
+  using Op = decltype(unifex::connect(m.async_lock(), LockRcv<>{&mon, 0, &cnt[0], &how[0], src[0].get_token()}));
+  struct Holder { Op op; Holder(M& mm, LockRcv<> r) : op(unifex::connect(mm.async_lock(), std::move(r))) {} };
+  std::unique_ptr<Holder> ops[MAXW];
+  std::vector<int> waiting;          // model: ids waiting, in queueing order
+  std::vector<int> expect_grants;    // model: order in which ids must be granted
+  int holder = 9, nw = 0;            // 9 = the harness itself (try_lock), -1 = free
+  std::string trace;
+  vmc::check(m.try_lock(), "C15", "try-lock", "try_lock on a free mutex failed");
+  mon.enter(9);
+  auto model_unlock = [&] {
+    if (waiting.empty()) { holder = -1; return; }
+    holder = waiting.front(); waiting.erase(waiting.begin()); expect_grants.push_back(holder);
+  };
+  auto real_unlock = [&] { mon.leave(); m.unlock(); };
+  auto check_state = [&](const char* when) {
+    for (int i = 0; i < nw; ++i) {
+      bool is_waiting = std::find(waiting.begin(), waiting.end(), i) != waiting.end();
+      if (is_waiting && cnt[i] != 0) vmcrt::fail("C15,C01", "early-completion", (std::string(when) + ": waiter " + std::to_string(i) + " completed (" + how[i] + ") although it is still queued behind the holder; ops: " + trace).c_str());
+      if (!is_waiting && cnt[i] != 1) vmcrt::fail("C15,C01", "lost-waiter", (std::string(when) + ": waiter " + std::to_string(i) + " should have completed by now (granted or cancelled); ops: " + trace).c_str());
+    }
+    int real_holder = mon.occupancy == 1 ? mon.order[mon.norder - 1] : -1;
+    if (real_holder != holder) vmcrt::fail("C15", "wrong-holder", (std::string(when) + ": lock held by " + std::to_string(real_holder) + ", reference says " + std::to_string(holder) + "; ops: " + trace).c_str());
+  };
+  for (int step = 0; step < nops; ++step) {
+    // menu: W (if nw < MAXW), U (if somebody holds), C for every waiting id
+    std::vector<std::pair<char, int>> menu;
+    if (nw < MAXW) menu.push_back({'W', nw});
+    if (holder != -1) menu.push_back({'U', 0});
+    for (int id : waiting) menu.push_back({'C', id});
+    if (menu.empty()) break;
+    auto [op, id] = menu[vmc::choose((int)menu.size())];
+    trace += op; if (op != 'U') trace += std::to_string(id); trace += ' ';
+    if (op == 'W') {
+      ops[id] = std::make_unique<Holder>(m, LockRcv<>{&mon, id, &cnt[id], &how[id], src[id].get_token()});
+      ++nw;
+      if (holder == -1) { holder = id; expect_grants.push_back(id); } else waiting.push_back(id);
+      start(ops[id]->op);
+    } else if (op == 'U') {
+      model_unlock();
+      real_unlock();
+    } else {
+      waiting.erase(std::find(waiting.begin(), waiting.end(), id));
+      src[id].request_stop();
+      if (how[id] != 'D') vmcrt::fail("C15,C04", "cancel-not-done", ("a queued waiter whose stop token fired did not complete with done; ops: " + trace).c_str());
+    }
+    check_state("after op");
+  }
+  // drain
+  int guard = 0;
+  while (holder != -1 && guard++ < 10) { trace += "U "; model_unlock(); real_unlock(); check_state("drain"); }
+  // grants happened in queueing order
+  std::vector<int> got;
+  for (int k = 0; k < mon.norder; ++k) if (mon.order[k] != 9) got.push_back(mon.order[k]);
+  if (got != expect_grants) {
+    std::string a, b; for (int x : got) a += std::to_string(x); for (int x : expect_grants) b += std::to_string(x);
+    vmcrt::fail("C15", "fifo", ("grant order " + a + ", reference (queueing order without the cancelled ones) " + b + "; ops: " + trace).c_str());
+  }
+  vmc::check(m.try_lock(), "C15", "lock-leaked", "mutex still held after every holder unlocked");
+  for (int i = 0; i < nw; ++i) ops[i].reset();
+  vmc::note(std::to_string(nw) + "w" + std::to_string((int)got.size()) + "g");
+}
+VMC_SEQ_HARNESS(mtx_v2_ops, "C15,C01,C04") { mutex_ops_body<v2::async_mutex>(); }
